@@ -53,6 +53,8 @@ def run(ctx):
         cfgs += [('sig', s, None, None) for s in ([1, 1, 1, 1, 1], [0, 1, 1, 1, -1], [1, -1, -1, 1])]
         cfgs += [('custom', [1, -1, 0], None, random_custom_basis(rng, 3)) for _ in range(4)]
     for tag, sig, start, basis in cfgs:
+        if ctx.over_budget():
+            continue
         alg = make_algebra(sig, start, basis)
         d = alg.d
         desc = {'sig': sig, 'basis': basis}
